@@ -164,7 +164,7 @@ Theorem operand_safe_everywhere (p : lprogram) (f g : func) P F :
           (r = RJumpOutOfRange -> iop ii = OpJumpFinally).
 Proof.
   intros H Hg HM. pose proof (code_bytes_in_range _ _ _ H Hg) as Hlt.
-  destruct (ends_in_return _ _ _ H Hg) as (is_ & Hc & Hok & [J1 J2] & _ & _ & Hjf).
+  destruct (ends_in_return _ _ _ H Hg) as (is_ & Hc & Hok & [J1 J2] & _ & _ & Hjf & _).
   exists is_. split; auto. intros s Hs.
   apply sbnd_split in Hs. destruct Hs as (pre & i & post & E & Hq).
   assert (Hpc : pc s = N.of_nat (length (flat pre))) by (rewrite Hq, N2Nat.id; reflexivity).
